@@ -6,6 +6,9 @@ of one direction it first injects a well-framed plaintext packet (and/or deletes
 packets after NEWKEYS).  Oracle (only when both sides advertised strict kex): the victim terminates
 for every packet injected before its initial key exchange completed; sequence numbers are 0 after
 every NEWKEYS in both directions; an edited handshake never yields a working session.
+Re-key marker dimension: the kex-strict pseudo-algorithm is defined for the *initial* KEXINIT only
+("MUST be ignored in subsequent KEXINITs"), so either peer may or may not repeat it when re-keying;
+strict mode, once negotiated, must survive every combination.
 """
 from vmc import core, enum, fixtures as F, kexfix as K, vthreading
 from vmc.refs import exhash as X, negotiate as N
@@ -23,7 +26,9 @@ META = {
             "curve25519 (quick) / curve25519, nistp256, group14-sha256, gex-sha256 (thorough); Terrapin "
             "pairs: IGNORE injected at position i <= NEWKEYS (or none) combined with deletion of the "
             "j-th (j<3) packet after NEWKEYS of that direction; sequence numbers of the first packet "
-            "sent/received after every NEWKEYS over 0-2 rekeys, both roles initiating.",
+            "sent/received after every NEWKEYS over 0-2 rekeys, both roles initiating; with mutual strict "
+            "mode additionally x which peer leaves the kex-strict marker out of its re-key KEXINITs "
+            "(client / server / both).",
     "note": "injected packets are plaintext (an attacker cannot forge encrypted ones); termination is "
             "asserted only when both sides advertised strict kex; positions after NEWKEYS only feed the "
             "'never a working edited session' clause",
@@ -204,10 +209,41 @@ def pos_name(cfg):
 
 
 # ---------------------------------------------------------------------------------- seqno scenario
+class InitialOnlyMarker(K.RecTransport):
+    """A peer that lists the kex-strict marker in its first KEXINIT only, as the extension's
+    specification allows (later occurrences carry no meaning), and otherwise is a stock transport.
+    Only the composition of its own later KEXINITs differs: `advertise_strict_kex` reads False for
+    the thread that is inside a re-key `_send_kex_init`, everywhere else it is the real value."""
+
+    _omit_in = None
+    _adv = True
+
+    def _get_adv(self):
+        return self._adv and self._omit_in is not vthreading.current_thread()
+
+    def _set_adv(self, v):
+        self._adv = v
+
+    advertise_strict_kex = property(_get_adv, _set_adv)
+
+    def _send_kex_init(self):
+        if not self.initial_kex_done:
+            return K.RecTransport._send_kex_init(self)
+        self._omit_in = vthreading.current_thread()
+        try:
+            return K.RecTransport._send_kex_init(self)
+        finally:
+            self._omit_in = None
+
+
 def seqno_scenario(cfg):
+    omit = cfg.get("omit_marker_in_rekey", "")
+
     def body(s):
         p = K.kpair(cfg["kex"], "ssh-ed25519", client_kw={"strict_kex": cfg["strict_c"]},
-                    server_kw={"strict_kex": cfg["strict_s"]})
+                    server_kw={"strict_kex": cfg["strict_s"]},
+                    tclass=InitialOnlyMarker if "c" in omit else K.RecTransport,
+                    sclass=InitialOnlyMarker if "s" in omit else K.RecTransport)
         p.start()
         p.auth()
         for who in cfg["rekeys"]:
@@ -217,6 +253,8 @@ def seqno_scenario(cfg):
         p.tc.global_request("ping@verif", wait=True)
         s.quiesce()
         out = {"glog": [(side, dr, t, q) for side, dr, t, q, _ in p.glog],
+               "markers": {sd: [b"kex-strict-" in raw for side, dr, t, q, raw in p.glog
+                                if side == sd and dr == "tx" and t == 20] for sd in ("c", "s")},
                "c_agreed": p.tc.agreed_on_strict_kex, "s_agreed": p.ts.agreed_on_strict_kex,
                "active": p.tc.active and p.ts.active}
         p.close()
@@ -228,16 +266,24 @@ def seqno_scenario(cfg):
 def judge_seqno(acc, cfg, ex):
     replay = {"kind": "seqno", "cfg": cfg}
     mutual = cfg["strict_c"] and cfg["strict_s"]
+    omit = cfg.get("omit_marker_in_rekey", "")
+    sfx = ":a-peer-omits-marker-in-rekey-KEXINIT" if omit else ""
     if ex.outcome != "ok":
-        acc.violation("honest-session-fails:%s:%s" % ("strict" if mutual else "not-mutual",
-                                                      K.exc_name(ex.error) or ex.outcome),
+        acc.violation("honest-session-fails:%s:%s%s" % ("strict" if mutual else "not-mutual",
+                                                        K.exc_name(ex.error) or ex.outcome, sfx),
                       {"cfg": cfg, "error": repr(ex.error)}, replay)
         return
     v = ex.value
     for side in ("c", "s"):
+        want = [True] + [side not in omit] * len(cfg["rekeys"])
+        if omit and v["markers"][side] != want:
+            acc.violation("harness-rekey-marker-not-as-configured", {"cfg": cfg, "markers": v["markers"]},
+                          replay)
+            return
+    for side in ("c", "s"):
         if v[side + "_agreed"] != mutual:
-            acc.violation("strict-mode-belief-differs-from-what-both-advertised:%s"
-                          % ("client" if side == "c" else "server"), {"cfg": cfg}, replay)
+            acc.violation("strict-mode-belief-differs-from-what-both-advertised:%s%s"
+                          % ("client" if side == "c" else "server", sfx), {"cfg": cfg}, replay)
     n_newkeys = 0
     for side in ("c", "s"):
         for dr in ("tx", "rx"):
@@ -248,14 +294,16 @@ def judge_seqno(acc, cfg, ex):
                     nxt = seq[i + 1][1]
                     which = "initial" if [x[0] for x in seq[:i]].count(21) == 0 else "rekey"
                     if mutual and nxt != 0:
-                        acc.violation("seqno-not-reset-after-NEWKEYS:%s:%s:%s"
+                        acc.violation("seqno-not-reset-after-NEWKEYS:%s:%s:%s%s"
                                       % ("client" if side == "c" else "server",
-                                         "outbound" if dr == "tx" else "inbound", which),
+                                         "outbound" if dr == "tx" else "inbound", which, sfx),
                                       {"cfg": cfg, "seqno_after_newkeys": nxt, "newkeys_seqno": q}, replay)
                     elif not mutual:
                         acc.count("not_mutual_seqno_%s" % ("continues" if nxt == q + 1 else "other"))
     if mutual:
-        acc.nt(("seqno", cfg["kex"], tuple(cfg["rekeys"])))
+        acc.nt(("seqno", cfg["kex"], tuple(cfg["rekeys"]), omit))
+        if omit:
+            acc.count("rekeys_with_marker_omitted_by_" + omit, len(cfg["rekeys"]))
         acc.count("newkeys_observed_strict", n_newkeys)
     if len(acc.samples) < 4 and mutual and cfg["rekeys"]:
         c_rx = [(t, q) for sd, d2, t, q in v["glog"] if sd == "c" and d2 == "rx"]
@@ -289,6 +337,10 @@ def configs(tier):
                 [[], ["c"], ["s"], ["c", "c"], ["c", "s"], ["s", "c"], ["s", "s"]]
             for r in rk:
                 out.append(dict(base, k="seqno", rekeys=r))
+                if sc and ss and r:
+                    # re-key marker dimension: which peer(s) list the marker in the first KEXINIT only
+                    for omit in ("c", "s", "cs"):
+                        out.append(dict(base, k="seqno", rekeys=r, omit_marker_in_rekey=omit))
     return out
 
 
@@ -311,6 +363,8 @@ def main(tier):
         "really injected before the victim's initial kex completed, distinct Terrapin (position, "
         "deleted packet) pairs, and distinct (kex, rekey sequence) seqno observations",
         ["termination is asserted only when both sides advertised strict kex (DESIGN section 7)",
+         "a peer that omits the marker from re-key KEXINITs is a stock transport whose later KEXINITs are "
+         "composed without it; it keeps resetting sequence numbers (strict mode was negotiated)",
          "one delivery order = which direction is served first whenever both have a chunk in flight; "
          "each chunk is delivered only after the system is quiescent",
          "the duplicate KEXINIT is a copy of the peer's real KEXINIT taken from the wire"])
